@@ -18,6 +18,8 @@ def run(ctx):
     ok = ctx.check_theorems()
     if os.path.exists(os.path.join(lib.COQ, 'Properties', 'Properties_C02c.v')):     # C03_build_decode for union vectors / nested levels
         ok = ctx.check_theorems(prop_module='Properties_C02c') and ok
+    if os.path.exists(os.path.join(lib.COQ, 'Properties', 'Properties_C03b.v')):     # reader value model = Spec.decode on every wf buffer
+        ok = ctx.check_theorems(prop_module='Properties_C03b') and ok
     if not ok:
         ctx.broken_obligation('Properties_C03.vo', getattr(ctx, 'broken', {}))
     E = Engine(ctx, with_gen_api=True)
@@ -59,7 +61,7 @@ def run(ctx):
         fj = [j for j, f in enumerate(fields) if f.name == 'ns'][0]
         fd = [j for j, f in enumerate(fields) if f.name == 'd'][0]
         # an 8 byte field first, so that the struct frame starts at data-stack offset 8
-        line = 'build X:1:0:- B:-:0:0 Gs:%d Gf:%d:%d:0000000000000840 Gn:%d:%d:%s Ge:%d E:2' % (ti, ti, fd, ti, fj, '01000000000000000000000000000840', ti)
+        line = 'build X:1:0:- B:-:0:0 Gs:%d Gf:%d:%d:0000000000000840 Gn:%d:%d:c:%s:0 Ge:%d E:2' % (ti, ti, fd, ti, fj, '01000000000000000000000000000840', ti)
         r = lib.run_harness_resilient(E.HP['bnest'], [line])[0]
         ctx.count(line, klass='probe-generated-struct-alignment')
         if r.startswith('CRASH') and 'misaligned' in r:
@@ -100,6 +102,12 @@ def run(ctx):
             except Exception as e:
                 ctx.violation('reader-walk-failed', 'independent reader cannot walk the finished buffer: %r' % e, {'harness_line': c.h, 'buffer_hex': raw.hex()})
     dres = E.run_bc_all(dump_items)
+    # the generated-reader VALUE model (Verifier/ReaderValue.v, Properties_C03b) against the real generated reader and the decoder
+    if os.path.exists(os.path.join(lib.ROOT, 'checks', 'c03b_util.py')):
+        from . import c03b_util
+        sel = [(c, d) for c, d in zip(dump_cases, dres) if d is not None and not d.startswith('CRASH')]
+        if not ctx.thorough and len(sel) > 1500: sel = ctx.rng.sample(sel, 1500)
+        c03b_util.reader_value_check(ctx, c03b_util.items_from_c03([c for c, _ in sel], [d for _, d in sel]))
     mres = ctx.run_model('builder', dec_lines) if dec_lines else []
     for c, (name, line), d, dl, m in zip(dump_cases, dump_items, dres, dec_lines, mres):
         ctx.count(line, klass='reader-dump')
@@ -128,7 +136,8 @@ def run(ctx):
     ctx.cov['generator_histogram']['shared_object_uses'] = nshared
     if dump_items: ctx.sample({'dump_case': dump_items[0][1][:200], 'dump': (dres[0] or '')[:300], 'expected': bu.render_dump(dump_cases[0].schema, dump_cases[0].node, dump_cases[0].root)[:300]})
     ctx.trusted = lib.DEFAULT_TRUSTED + ['checks/builder_util.py (generators, expected renderings, generated dump glue over the reader accessors, PyReader)',
-                                         'harness/build_script.c, harness/buf_check.c']
+                                         'harness/build_script.c, harness/buf_check.c',
+                                         'ocaml/readervalue/driver.ml, checks/c03b_util.py (differential tie of the reader value model)']
     ctx.assumptions = ['little-endian host (the *_to_pe / *_from_pe conversions are identities here)',
                        'values enter through the runtime builder API (table_add / table_add_offset ...); the generated T_f_add default elision is covered by the gen-api cases when present']
     ctx.finish_args = dict(
